@@ -15,7 +15,12 @@ every class in `src/pytezos/michelson/types/`).
 * `Impl.Value.toMich`, `Impl.Value.ofMich` — the mirror.  Facts read from the source by the translator
            (`Generated.C11`): does `iter_comb` consult annotations, the timestamp range guard, the year padding of
            `format_timestamp`, the shape of `optimize_timestamp` (RFC 3339 first, then `int`), the handler tables
-           of `parse_micheline_value` / `parse_micheline_literal` of every class, `bls12_381_fr` modulus, mutez width.
+           of `parse_micheline_value` / `parse_micheline_literal` of every class, `bls12_381_fr` modulus, mutez width,
+           and the bodies of `parse_micheline_value`, `PairType.from_micheline_value` and `StringType.from_value`
+           as repaired (3f5c1d7, 1138dca, 45078c3): a data constructor that carries annotations is not a value
+           (unit, bool, option, or, `Elt`, `Pair`; the literal leaves, sequences and lambda bodies do not go through
+           those readers), `Pair x1 … xn` / `{x1; …; xn}` with n ≥ 3 needs a pair class on the right, and a string
+           holds printable ASCII and newlines only.
 -/
 namespace VC
 open Core
@@ -174,6 +179,7 @@ def sourceOk : Bool :=
   Generated.C11.combConsultsAnnots.isSome && Generated.C11.pairToMichRecognised && Generated.C11.pairFromMichRecognised
     && Generated.C11.tsGuard.isSome && Generated.C11.yearPadded.isSome && Generated.C11.tsParseRecognised
     && Generated.C11.frModulus.isSome && Generated.C11.mutezBits.isSome
+    && Generated.C11.parseValueRecognised && Generated.C11.stringFromValueRecognised
 
 def DomKind.prim : DomKind → String
   | .address => "address" | .contract => "address" | .keyHash => "key_hash" | .key => "key"
@@ -207,8 +213,18 @@ def leToNat : Bytes → Nat
   | [] => 0
   | b :: r => b + 256 * leToNat r
 
-/-- `len(value) == len(value.encode())` -/
-def asciiOnly (s : String) : Bool := s.length == s.utf8ByteSize
+/-- `c == '\n' or ' ' <= c <= '~'` -/
+def printableChar (c : Char) : Bool := c == '\n' || (' ' ≤ c && c ≤ '~')
+
+/-- the two assertions of `StringType.from_value`: `len(value) == len(value.encode())` (ASCII only) and
+`all(c == '\n' or ' ' <= c <= '~' for c in value)` (printable characters and newlines only; before the repair
+45078c3 every ASCII character passed, e.g. a tab or 0x01) -/
+def asciiOnly (s : String) : Bool := s.length == s.utf8ByteSize && s.toList.all printableChar
+
+/-- `issubclass(cls, PairType)` (a ticket is read through a pair class but is not one) -/
+def Ty.isPair : Ty → Bool
+  | .pair _ _ _ => true
+  | _ => false
 
 end VC
 
@@ -343,8 +359,9 @@ def mapElts (fk fv : Mich → Except Err Val) : List Mich → Except Err (List (
   | [] => .ok []
   | x :: xs =>
     match x with
-    | .prim p [k, v] _ =>
-      if accepts "map" p 2 then
+    | .prim p [k, v] an =>
+      if !an.isEmpty then .error .shape      -- `assert not val_expr.get('annots')` of `parse_micheline_value`
+      else if accepts "map" p 2 then
         match fk k with
         | .error e => .error e
         | .ok kk =>
@@ -357,11 +374,13 @@ def mapElts (fk fv : Mich → Except Err Val) : List Mich → Except Err (List (
       else .error .shape
     | _ => .error .shape
 
-/-- `PairType.from_micheline_value` given the parsers of the two components -/
-def pairOfMich (named : Bool) (f g : Mich → Except Err Val) (m : Mich) : Except Err Val :=
+/-- `PairType.from_micheline_value` given the parsers of the two components; `rightIsPair` is
+`issubclass(cls.args[1], PairType)`.  A `Pair` node with annotations is rejected (a sequence has none), and three or
+more arguments are handed to the right component only when that is a pair class -/
+def pairOfMich (named rightIsPair : Bool) (f g : Mich → Except Err Val) (m : Mich) : Except Err Val :=
   let args : Except Err (List Mich) :=
     match m with
-    | .prim p args _ => if p = "Pair" then .ok args else .error .shape
+    | .prim p args an => if p = "Pair" then (if an.isEmpty then .ok args else .error .shape) else .error .shape
     | .seq args => .ok args
     | _ => .error .shape
   match args with
@@ -373,11 +392,13 @@ def pairOfMich (named : Bool) (f g : Mich → Except Err Val) (m : Mich) : Excep
       | .error e => .error e
       | .ok y => .ok (.pair named x y)
   | .ok (a :: b :: c :: rest) =>
-    match f a with
-    | .error e => .error e
-    | .ok x => match g (.seq (b :: c :: rest)) with
+    if !rightIsPair then .error .shape
+    else
+      match f a with
       | .error e => .error e
-      | .ok y => .ok (.pair named x y)
+      | .ok x => match g (.seq (b :: c :: rest)) with
+        | .error e => .error e
+        | .ok y => .ok (.pair named x y)
   | .ok _ => .error .shape
 
 def domOfMich (env : Env) (k : DomKind) : Mich → Except Err Val
@@ -400,9 +421,12 @@ def intLit (ty : String) : Mich → Except Err Int
   | _ => .error .shape
 
 def leafOfMich (env : Env) : Leaf → Mich → Except Err Val
-  | .unit, .prim p args _ => if accepts "unit" p args.length then .ok .unit else .error .shape
-  | .bool, .prim p args _ =>
-    if accepts "bool" p args.length then (if p = "True" then .ok (.bool true) else .ok (.bool false)) else .error .shape
+  | .unit, .prim p args an =>
+    if !an.isEmpty then .error .shape
+    else if accepts "unit" p args.length then .ok .unit else .error .shape
+  | .bool, .prim p args an =>
+    if !an.isEmpty then .error .shape
+    else if accepts "bool" p args.length then (if p = "True" then .ok (.bool true) else .ok (.bool false)) else .error .shape
   | .int, m => (intLit "int" m).map .int
   | .nat, m =>
     match intLit "nat" m with
@@ -456,21 +480,25 @@ def ofMichCore (env : Env) : Ty → Mich → Except Err Val
   | .leaf l _, m => leafOfMich env l m
   | .option t _, m =>
     match m with
-    | .prim p [x] _ =>
-      if accepts "option" p 1 then
+    | .prim p [x] an =>
+      if !an.isEmpty then .error .shape
+      else if accepts "option" p 1 then
         (if p = "Some" then (ofMichCore env t x).map .some else .error .shape)
       else .error .shape
-    | .prim p [] _ => if accepts "option" p 0 then (if p = "None" then .ok .none else .error .shape) else .error .shape
+    | .prim p [] an =>
+      if !an.isEmpty then .error .shape
+      else if accepts "option" p 0 then (if p = "None" then .ok .none else .error .shape) else .error .shape
     | _ => .error .shape
   | .or l r _, m =>
     match m with
-    | .prim p [x] _ =>
-      if accepts "or" p 1 then
+    | .prim p [x] an =>
+      if !an.isEmpty then .error .shape
+      else if accepts "or" p 1 then
         (if p = "Left" then (ofMichCore env l x).map .left
          else if p = "Right" then (ofMichCore env r x).map .right else .error .shape)
       else .error .shape
     | _ => .error .shape
-  | .pair l r a, m => pairOfMich a.named (ofMichCore env l) (ofMichCore env r) m
+  | .pair l r a, m => pairOfMich a.named r.isPair (ofMichCore env l) (ofMichCore env r) m
   | .list t _, m =>
     match m with
     | .seq xs => (mapMich (ofMichCore env t) xs).map .list
@@ -505,8 +533,10 @@ def ofMichCore (env : Env) : Ty → Mich → Except Err Val
     | _ => .error .shape
   | .contract _ _, m => domOfMich env .contract m
   | .ticket t _, m =>
-    match pairOfMich false (domOfMich env .address)
-        (pairOfMich false (ofMichCore env t) (leafOfMich env .nat)) m with
+    -- `PairType.create_type(args=[AddressType, τ, NatType])` = `pair address (pair τ nat)`: a pair class on the right
+    -- of the outer pair, `nat` on the right of the inner one
+    match pairOfMich false true (domOfMich env .address)
+        (pairOfMich false false (ofMichCore env t) (leafOfMich env .nat)) m with
     | .ok c => ticketOfComb c
     | .error e => .error e
   | .saplingState _ _, m =>
